@@ -49,6 +49,47 @@ def call_chain(ctx: Ctx, src: FuncInfo, dst: FuncInfo) -> List[str]:
     return [src.qualname, '...', dst.qualname]
 
 
+_ALLOC_CALLS = {'dict', 'list', 'set', 'defaultdict', 'collections.defaultdict', 'OrderedDict', 'collections.OrderedDict', 'Counter', 'collections.Counter', 'deque'}
+
+
+def _fresh_local_root(ctx: Ctx, fi: FuncInfo, ev) -> bool:
+    try:
+        e = ast.parse(ev.recv_src, mode='eval').body
+    except SyntaxError:
+        return False
+    while isinstance(e, (ast.Subscript, ast.Attribute, ast.Call)):
+        if isinstance(e, ast.Call):
+            # x.setdefault(k, <fresh>) / x.get(k): rooted at x
+            if isinstance(e.func, ast.Attribute) and e.func.attr in ('setdefault', 'get', '__getitem__'):
+                e = e.func.value
+                continue
+            return False
+        e = e.value
+    if not isinstance(e, ast.Name) or e.id in fi.params:
+        return False
+    if any(isinstance(x, (ast.Global, ast.Nonlocal)) and e.id in x.names for x in walk_local(fi.node)):
+        return False
+    vals = ctx.cg.local_assigns(fi).get(e.id, [])
+    if not vals:
+        return False
+    for v in vals:
+        if isinstance(v, (ast.Dict, ast.List, ast.Set, ast.ListComp, ast.DictComp, ast.SetComp)):
+            continue
+        if isinstance(v, ast.Call) and norm(v.func) in _ALLOC_CALLS and all(isinstance(a, (ast.Constant, ast.Name)) and (isinstance(a, ast.Constant) or a.id in ('list', 'set', 'dict', 'int'))
+                                                                        for a in v.args):
+            continue
+        return False
+    return True
+
+
+def _allocated_in(o, fi: FuncInfo) -> bool:
+    w = getattr(o, 'where', '') or ''
+    if ':' not in w:
+        return False
+    path, _, ln = w.rpartition(':')
+    return path == fi.module.relpath and ln.isdigit() and fi.node.lineno <= int(ln) <= (fi.node.end_lineno or fi.node.lineno)
+
+
 @rule('R14', 'no call documented as returning a new object mutates one of its arguments or module-level state')
 def r14(ctx: Ctx) -> RuleReport:
     rep = RuleReport('R14', r14.title, floor=60)
@@ -69,6 +110,10 @@ def r14(ctx: Ctx) -> RuleReport:
             # a constructor initialising the object it is building (or helpers it allocated itself) is not
             # a mutation of pre-existing state, wherever the finished object ends up
             if ev.ctx is not None and ev.ctx[0] == 'ctor' and (o.actx == ev.ctx or eng.ctor_self.get(ev.ctx) is o):
+                continue
+            # a function filling a container it allocated itself in this activation: the receiver is rooted at a local name whose every definition
+            # is an allocation expression of this function, and the object was allocated inside this function
+            if _fresh_local_root(ctx, fi, ev) and o.origin is None and o.is_param is None and _allocated_in(o, fi):
                 continue
             if o.is_param is not None:
                 efq, p = o.is_param
